@@ -912,6 +912,18 @@ def _int_method(rt, interp, v, name):
         return Builtin("int.to_bytes", to_bytes)
     if name == "bit_length" and isinstance(v, int):
         return Builtin("int.bit_length", lambda i, a, k: v.bit_length())
+    if name == "bit_length" and isinstance(v, SInt):
+        def bit_length(i, a, k):
+            # exact for |v| < 2^128 (an if-then-else chain); above, only "at least 129" is known
+            x = zint(v)
+            mag = z3.If(x >= 0, x, -x)
+            big = i.ctx.fresh_int("bit_length_beyond_128")
+            i.ctx.assume(big >= 129)
+            e = zint(big)
+            for kbits in range(128, -1, -1):
+                e = z3.If(mag < 2 ** kbits, z3.IntVal(kbits), e)
+            return lift_int(e)
+        return Builtin("int.bit_length", bit_length)
     return MISSING
 
 
